@@ -155,7 +155,12 @@ class IfRangeDate:
 
     def __contains__(self, resp):
         last_modified = resp.last_modified
-        return last_modified and (last_modified <= self.date)
+
+        if last_modified is None or self.date is None:
+            # nothing to compare against (e.g. an unparsable If-Range date)
+            return False
+
+        return last_modified <= self.date
 
     def __repr__(self):
         return f"{self.__class__.__name__}({self.date!r})"
